@@ -918,10 +918,31 @@ class Interp:
         return MISSING
 
     def e_JoinedStr(self, n):
+        # literal parts and plain {str} / {int} fields are concatenated exactly; any other field (format spec,
+        # conversion, other types) is an unknown string
+        parts = []
         for v in n.values:
+            if isinstance(v, ast.Constant) and isinstance(v.value, str):
+                parts.append(z3.StringVal(v.value))
+                continue
             if isinstance(v, ast.FormattedValue):
-                self.eval(v.value)
-        return VStr(z3.String(self.fresh_name("fstr")))
+                val = self.eval(v.value)
+                fv = self.force(val) if not isinstance(val, VUnion) else None
+                if v.format_spec is None and v.conversion == -1 and fv is not None and fv.tag == "str" and not fv.is_bytes:
+                    parts.append(fv.t)
+                elif v.format_spec is None and v.conversion == -1 and fv is not None and fv.tag == "int":
+                    from . import builtins_ as B
+                    parts.append(B.b_str(self, [fv], {}).t)
+                else:
+                    parts.append(z3.String(self.fresh_name("fstr")))
+                continue
+            parts.append(z3.String(self.fresh_name("fstr")))
+        if not parts:
+            return VStr(z3.StringVal(""))
+        out = parts[0]
+        for p_ in parts[1:]:
+            out = z3.Concat(out, p_)
+        return VStr(out)
 
     def e_UnaryOp(self, n):
         v = self.eval(n.operand)
